@@ -388,8 +388,12 @@ def load_replay(path):
 # --------------------------------------------------------------------------
 # parallel map with per-worker statistics
 
+_PM_FN = None
+
+
 def _pm_worker(args):
-    fn, chunk, wid = args
+    chunk, wid = args
+    fn = _PM_FN
     st = Stats()
     fails = []
     for item in chunk:
@@ -413,9 +417,11 @@ def pmap_cases(fn, items, nproc=None, stop_after=20):
         return total, fails
     nchunks = min(len(items), nproc * 4)
     chunks = [items[i::nchunks] for i in range(nchunks)]
+    global _PM_FN
+    _PM_FN = fn
     ctx = mp.get_context("fork")
     with ctx.Pool(min(nproc, nchunks)) as pool:
-        for st, fl in pool.imap_unordered(_pm_worker, [(fn, c, i) for i, c in enumerate(chunks)]):
+        for st, fl in pool.imap_unordered(_pm_worker, [(c, i) for i, c in enumerate(chunks)]):
             total.merge(st)
             fails.extend(fl)
             if len(fails) >= stop_after:
